@@ -66,12 +66,14 @@ def _run_variant(args):
     d = _variant_dir(repo, relfile, new)
     try:
         mod = importlib.import_module(f"n2kstatic.props.{pid.lower()}")
+        chk = None
         try:
-            prog = Program(d, jobs=1 if relfile.endswith('pgns.py') or True else None)
+            prog = Program(d, jobs=1)
             chk = Check(pid, 'quick', 0, mod.LEVEL, prog)
             mod.run(chk, prog, 'quick')
         except AnalysisError as e:
-            return idx, 'refused', str(e)[:200]
+            if chk is None or not [o for o in chk.obs if o.status == 'violation' and o.key() not in baseline]:
+                return idx, 'refused', str(e)[:200]
         except Exception as e:
             return idx, 'refused', f"{type(e).__name__}: {e}"[:200]
         newv = [(o.rule, o.instance) for o in chk.obs if o.status == 'violation' and o.key() not in baseline]
